@@ -169,7 +169,15 @@ func c09wInterp(t *testing.T, c c09wCase) (v kit.Verdict) {
 				classes["option-passed-twice"] = true
 			}
 		}
-		rw := NewRollingWindow(c.Size, time.Duration(c.Iv), opts...)
+		var rw *RollingWindow
+		if pv := func() (pv any) {
+			defer func() { pv = recover() }()
+			rw = NewRollingWindow(c.Size, time.Duration(c.Iv), opts...)
+			return nil
+		}(); pv != nil {
+			fail = fmt.Sprintf("NewRollingWindow(%d, %dns) panicked for a legal configuration: %v", c.Size, c.Iv, pv)
+			return
+		}
 		var (
 			el       int64 // elapsed virtual ns since creation
 			adds     []c09wAdd
@@ -440,6 +448,9 @@ func c09wInterp(t *testing.T, c c09wCase) (v kit.Verdict) {
 	case c.Iv > int64(time.Second):
 		classes["interval>1s"] = true
 	}
+	if c.Size > 1 && c.Iv > math.MaxInt64/size {
+		classes["window>=2^63ns"] = true
+	}
 	v.NonTrivial = nontrivial
 	for k := range classes {
 		v.Classes = append(v.Classes, k)
@@ -461,6 +472,10 @@ var c09wIntervals = []int64{
 // scale-free magnitudes (SWEEP class 1)
 var c09wSmallIntervals = []int64{1, 2, 3, 127, 128, 255, 256, 1000, 65535, 65536, 999999}
 var c09wBigIntervals = []int64{int64(time.Second) + 1, int64(time.Minute), int64(time.Hour), int64(30 * 24 * time.Hour)}
+
+// intervals whose product with a size > 1 leaves int64 (a window of 292 years or more is a
+// legal configuration: every add of a process lifetime stays in the first buckets)
+var c09wHugeIntervals = []int64{int64(100 * 365 * 24 * time.Hour), 1 << 61, 1<<61 + 1, 1<<62 - 1, 1 << 62, math.MaxInt64/3 + 1, math.MaxInt64/2 + 1, math.MaxInt64 - 1, math.MaxInt64}
 var c09wBigSizes = []int{64, 127, 128, 129, 255, 256, 257, 1000, 4096, 65535, 65536, 65537}
 var c09wHugeGaps = []int64{int64(time.Minute), int64(time.Hour), int64(30 * 24 * time.Hour), int64(100 * 365 * 24 * time.Hour),
 	1<<31 - 1, 1 << 31, 1<<31 + 1, 1<<32 - 1, 1 << 32, 1<<32 + 1, 1 << 53, 1<<53 + 1}
@@ -470,7 +485,7 @@ func c09wGen(rt *rapid.T) c09wCase {
 		Size: rapid.IntRange(1, 12).Draw(rt, "size"),
 		Ign:  rapid.Bool().Draw(rt, "ign"),
 	}
-	switch rapid.SampledFrom([]string{"round", "round", "ns", "ns", "small", "big", "bigsize"}).Draw(rt, "ivkind") {
+	switch rapid.SampledFrom([]string{"round", "round", "ns", "ns", "small", "big", "bigsize", "hugeiv"}).Draw(rt, "ivkind") {
 	case "round":
 		c.Iv = rapid.SampledFrom(c09wIntervals).Draw(rt, "iv")
 	case "ns":
@@ -479,6 +494,11 @@ func c09wGen(rt *rapid.T) c09wCase {
 		c.Iv = rapid.SampledFrom(c09wSmallIntervals).Draw(rt, "ivsmall")
 	case "big":
 		c.Iv = rapid.SampledFrom(c09wBigIntervals).Draw(rt, "ivbig")
+	case "hugeiv":
+		c.Iv = rapid.SampledFrom(c09wHugeIntervals).Draw(rt, "ivhuge")
+		if rapid.IntRange(0, 3).Draw(rt, "hugesize") == 0 {
+			c.Size = rapid.SampledFrom(c09wBigSizes).Draw(rt, "bigsize")
+		}
 	case "bigsize":
 		c.Size = rapid.SampledFrom(c09wBigSizes).Draw(rt, "bigsize")
 		c.Iv = rapid.SampledFrom(append(append([]int64{}, c09wSmallIntervals...), c09wIntervals...)).Draw(rt, "ivbs")
@@ -534,17 +554,23 @@ func c09wGen(rt *rapid.T) c09wCase {
 			case "toB+1":
 				o.D = toB + 1
 			case "k":
-				o.D = rapid.Int64Range(1, size+2).Draw(rt, "ki") * c.Iv
-				if rapid.Bool().Draw(rt, "align") {
+				o.D = c09wSatMul(rapid.Int64Range(1, size+2).Draw(rt, "ki"), c.Iv)
+				if rapid.Bool().Draw(rt, "align") && o.D < math.MaxInt64-c.Iv {
 					o.D += toB % c.Iv
 				}
 			case "win":
-				o.D = size*c.Iv + rapid.SampledFrom([]int64{-c.Iv, -1, 0, 1, c.Iv}).Draw(rt, "wd")
+				o.D = c09wSatMul(size, c.Iv)
+				if wd := rapid.SampledFrom([]int64{-c.Iv, -1, 0, 1, c.Iv}).Draw(rt, "wd"); wd < 0 || o.D < math.MaxInt64-wd {
+					o.D += wd
+				}
 				if o.D < 0 {
 					o.D = 0
 				}
 			case "multi":
-				o.D = rapid.Int64Range(2, 5).Draw(rt, "mw")*size*c.Iv + rapid.Int64Range(0, c.Iv-1).Draw(rt, "mr")
+				o.D = c09wSatMul(rapid.Int64Range(2, 5).Draw(rt, "mw"), c09wSatMul(size, c.Iv))
+				if mr := rapid.Int64Range(0, c.Iv-1).Draw(rt, "mr"); o.D < math.MaxInt64-mr {
+					o.D += mr
+				}
 			case "huge": // a number of nanoseconds, or that number of intervals
 				o.D = rapid.SampledFrom(c09wHugeGaps).Draw(rt, "hg")
 				if rapid.Bool().Draw(rt, "hgiv") {
